@@ -224,6 +224,19 @@ theorem sgroup_runFrom (agg : GAgg α) (kf inf : Row → Row) (hk : RowCongr kf)
           (gUpdate agg groups (kf r.vals) r.retr (inf r.vals), [], none) := rfl
       simp only [Op.runFrom, hstep, hrun, wmMsgs, wms, List.nil_append]
 
+/-- every stored group triggers, with the reference aggregate of the group's rows -/
+theorem ginv_trig (agg : GAgg α) (spec : List Row → Row) (hagg : GAggOK agg spec) (kf inf : Row → Row)
+    (hk : RowCongr kf) (hi : RowCongr inf) (log : List Rec) (groups : List (Row × GItem α))
+    (inv : GInv agg kf inf groups log) (rows : List Row) (hc : Consolidates rows log) :
+    ∀ e ∈ groups, ∃ out, agg.trig e.2.st = some out ∧
+      rowEq out (spec ((rows.filter fun x => rowEq (kf x) e.1).map inf)) = true := by
+  intro e he
+  obtain ⟨_, _, h, hvh, hnet, hst⟩ := inv.present e.1 e (aget_of_mem_nodup groups inv.nodup e he)
+  have hcons : Consolidates ((rows.filter fun x => rowEq (kf x) e.1).map inf) h := by
+    intro y; rw [hnet y]; exact sub_consolidates kf inf hk hi e.1 hc y
+  obtain ⟨out, ho, hr⟩ := hagg h _ hvh hcons
+  exact ⟨out, hst ▸ ho, hr⟩
+
 /-- what the entries of a state satisfying the invariant trigger, and the consolidated result -/
 theorem ginv_result (agg : GAgg α) (spec : List Row → Row) (hagg : GAggOK agg spec) (kf inf : Row → Row)
     (hk : RowCongr kf) (hi : RowCongr inf) (log : List Rec) (groups : List (Row × GItem α))
